@@ -148,15 +148,20 @@ def oracle(ctx, LR, content, text, case, res=None):
             return False
         ctx.fail(case, 'reader result differs from the written content: ' + _diff(got, want))
         return False
-    # masks: channels 1.. are masked exactly where the value equals the reader's null; the X axis is never masked
+    # masks: channels 1.. are masked exactly where the value equals the null value; the X axis is never masked
     fa = las.frame_array
+    null = G.NULL_DEFAULT if decl is None else decl
     if nfr:
         for ci, ch in enumerate(fa.channels):
             mask = np.ma.getmaskarray(ch.array)[:, 0]
             data = np.ma.getdata(ch.array)[:, 0]
-            exp = (data == G.NULL_DEFAULT) if ci > 0 else np.zeros(len(data), dtype=bool)
+            exp = (data == null) if ci > 0 else np.zeros(len(data), dtype=bool)
             if list(mask) != list(exp):
-                ctx.fail(case, f'channel {ci}: mask {list(mask)} but values {list(data)}'); return False
+                if ci > 0 and null != G.NULL_DEFAULT and list(mask) == list(data == G.NULL_DEFAULT):
+                    ctx.fail(case, f'channel {ci} is masked at -999.25, the file declares NULL={decl}', finding=F_NULL)
+                else:
+                    ctx.fail(case, f'channel {ci}: mask {[bool(x) for x in mask]} but values {[float(x) for x in data]}')
+                return False
     # lookups by mnemonic give the first line with that mnemonic; channels by name
     for s in [{'typ': 'V', 'kind': 'H', 'lines': content['v']}] + content['sects']:
         if s['kind'] != 'H': continue
@@ -239,7 +244,7 @@ def run(ctx):
     from gen import las as G
     LR = _impl()
     rng = ctx.rng
-    n_contents = ctx.n(260, 2500)
+    n_contents = ctx.n(1000, 6000)
     n_layouts = ctx.n(6, 12)
     items = []          # (content, layout, group)
     for g in range(n_contents):
@@ -292,12 +297,27 @@ def run(ctx):
     ctx.sample({'op': 'content', 'text_head': texts[ok[0]][:300], 'layouts_per_content': n_layouts})
     ctx.sample({'op': 'content', 'text_head': texts[ok[len(ok) // 2]][:300]})
 
+    # ---- white-space-only lines (not skipped by generate_lines, ignored by every section) after the first section head
+    ws_items = []
+    for i in rng.sample(ok, min(len(ok), ctx.n(300, 3000))):
+        c, l, g = items[i]
+        lines = texts[i].split('\n')
+        first = next(k for k, ln in enumerate(lines) if ln.strip().startswith('~V'))
+        for _ in range(rng.randint(1, 4)):
+            lines.insert(rng.randint(first + 1, len(lines) - 1), rng.choice(['  ', '\t', ' \t ', '\r', ' \x0c', '\x1f ']))
+        ws_items.append((c, l, '\n'.join(lines)))
+    reps = ctx.lean(['parse ' + t.encode('ascii').hex() for _, _, t in ws_items])
+    for (c, l, t), r in zip(ws_items, reps):
+        res = impl_parse(LR, t)
+        ctx.corr('lasparse_wslines', {'op': 'text', 'text': t}, res[0], model_struct(r))
+        oracle(ctx, LR, c, t, {'op': 'content_text', 'content': c, 'text': t}, res)
+
     # ---- known-finding classes of the property's input space
-    for _ in range(ctx.n(10, 60)):
+    for _ in range(ctx.n(20, 100)):
         c = G.gen_content(rng, null=rng.choice([['f', -9999, 0], ['i', -9999], ['f', -99999, -2]]), bad_rate=0.3, allow_bad_x=False)
         l = G.gen_layout(rng, c)
         oracle(ctx, LR, c, G.print_las(c, l), _case(c, l))
-    for _ in range(ctx.n(6, 30)):
+    for _ in range(ctx.n(10, 50)):
         c = G.gen_content(rng, max_curves=2, wrap=True)
         cs = [s for s in c['sects'] if s['typ'] == 'C'][0]
         cs['lines'] = cs['lines'][:1]
@@ -308,7 +328,7 @@ def run(ctx):
     # ---- malformed stream (correspondence only)
     bad_texts = structural(rng, G)
     valid = [texts[i] for i in ok]
-    for _ in range(ctx.n(2500, 30000)):
+    for _ in range(ctx.n(10000, 80000)):
         bad_texts.append(mutate(rng, rng.choice(valid)))
     bad_texts = [t for t in bad_texts if not G.has_python_only_literal(t)]
     replies = ctx.lean(['parse ' + (t.encode('ascii').hex() or '-') for t in bad_texts])
@@ -326,7 +346,7 @@ def run(ctx):
     strs = []
     pool = G._TEXT_VALUES + ['12', '-7', '+3', ' 42 ', '1.5', '-.5', '5.', '1e3', '1E-3', '1.e5', '.e5', 'e', '1e', ' yes', 'No ', 'YES',
                              'nO', '\t1\t', '\x1f2', '0012', '-0', '+.0e-0', '1.2.3', '- 1', '1 e3', '12:30', '', ' ', '++1', '1+']
-    for _ in range(ctx.n(3000, 30000)):
+    for _ in range(ctx.n(10000, 60000)):
         s = rng.choice(pool) if rng.random() < 0.4 else ''.join(rng.choice(' 0123456789.eE+-yYeEsSnNoO\t:') for _ in range(rng.randint(0, 7)))
         if not G.has_python_only_literal(s):
             strs.append(s)
@@ -376,6 +396,12 @@ def replay(ctx, rec):
         text = G.print_las(case['content'], case['layout'])
         n0 = len(ctx.failures)
         oracle(ctx, LR, case['content'], text, case)
+        if len(ctx.failures) > n0:
+            return False, ctx.failures[-1]['detail']
+        return True, 'the reader returns the written content'
+    if case.get('op') == 'content_text':
+        n0 = len(ctx.failures)
+        oracle(ctx, LR, case['content'], case['text'], case)
         if len(ctx.failures) > n0:
             return False, ctx.failures[-1]['detail']
         return True, 'the reader returns the written content'
